@@ -582,7 +582,7 @@ var _ = types.Typ
 func c17R6(p *core.Prog, r *core.Report) {
 	const rule = "C17/R6"
 	r.Rule(rule, "queue compaction: every non-nil entry visited is either kept in the slice or has its refCount decremented (dropped entries return the queue's reference)", 2)
-	for _, name := range []string{"server.(*LockManagerWaitQueue).Push", "server.(*LockManagerLockQueue).Push"} {
+	for _, name := range []string{"server.(*LockManagerWaitQueue).Push", "server.(*LockManagerLockQueue).Push", "server.(*LockManagerWaitQueue).RePushPriorityRingQueue"} {
 		fn := mustFunc(p, r, name)
 		if fn == nil {
 			continue
@@ -656,6 +656,13 @@ func c17R6(p *core.Prog, r *core.Report) {
 						base := core.Plain(strings.TrimSuffix(strings.TrimPrefix(x.Canon(t.Addr).S, "&"), ".refCount"))
 						if base == core.Plain(e) {
 							x.Set("dec", "1")
+						}
+					}
+				case ssa.CallInstruction:
+					// handed to another queue (migration): kept
+					if e := x.Get("elem"); e != "" {
+						if c := core.StaticCallee(x.Ins); c != nil && c.Name() == "Push" && len(core.CallArgs(x.Ins)) >= 2 && core.Plain(argCanon(x, x.Ins, 1)) == core.Plain(e) {
+							x.Set("kept", "1")
 						}
 					}
 				case *ssa.BinOp:
